@@ -150,7 +150,6 @@ class Prop:
     engine = "TH (controlled threads: baton passing, line-level pre-emption points, simulated locks/conditions/clock)"
     quick_runs = 14000
     thorough_runs = 300000
-    quick_budget = 90.0
     chunk = 100
     time_unit = "simulated seconds"
     rule = ("2-3 Subject sources, each driven serially by its own controlled thread with a seeded script (0-4 elements, optional sleeps, "
